@@ -634,7 +634,9 @@ def conc_validate(run, tmp, shards):
         if V.os.path.lexists(tp):
             V.os.remove(tp)
         V.os.symlink(path, tp)
+        t0 = V.time.time()
         r = V.run_tlc(d, "TracePool", workers=1, timeout=240, heap="6g")
+        hdr["tlc_s"] = round(V.time.time() - t0, 1)
         if r["rc"] == 124:   # search for a linearization did not finish: no verdict on this history
             return dict(rej=None, undecided=True, hdr=hdr, generated=0, distinct=0, events=n - 1, path=path)
         hw = None
@@ -660,6 +662,8 @@ def conc_validate(run, tmp, shards):
             shutil.copy(r["path"], rp)
             run.violations.append((r["rej"][0], r["rej"][1], rp, 1))
     run.extra["concurrent_histories_undecided_within_time_limit"] = sum(1 for r in rs if r.get("undecided"))
+    run.extra["concurrent_histories"] = [dict(id=r["hdr"].get("id"), goroutines=r["hdr"].get("g"), size=r["hdr"].get("size"), calls=r["events"] // 2,
+                                              tlc_s=r["hdr"].get("tlc_s"), undecided=bool(r.get("undecided"))) for r in rs]
     return dict(rejs=[], events=sum(r["events"] for r in rs), generated=sum(r["generated"] for r in rs), distinct=sum(r["distinct"] for r in rs))
 
 
